@@ -7,7 +7,8 @@ EXTENDS ECGroup, Json
 CONSTANT Primes
 VARIABLE x
 Pts(p) == Points(ToyCurve(p))
-Enc(k) == {<<k>>, <<0, k>>, <<0, 0, k>>}      \* k <= 255
+Enc(k) == IF k <= 255 THEN {<<k>>, <<0, k>>, <<0, 0, k>>}          \* big-endian byte strings of k with 0..2 leading zero bytes
+          ELSE {<<k \div 256, k % 256>>, <<0, k \div 256, k % 256>>}
 Scalars(p) == UNION {Enc(k) : k \in 0..(2 * ToyCurve(p).n + 2)} \cup {<<>>, <<1, 0>>, <<255, 255, 255>>}
 Vectors ==
   SetToSeq(UNION {{[op |-> "ecs.Add", in |-> [p |-> p, x1 |-> a[1], y1 |-> a[2], x2 |-> b[1], y2 |-> b[2]]] : a \in Pts(p), b \in Pts(p)} : p \in Primes})
@@ -15,7 +16,7 @@ Vectors ==
   \o SetToSeq(UNION {{[op |-> "ecs.BaseMul", in |-> [p |-> p, k |-> k]] : k \in Scalars(p)} : p \in Primes})
   \o SetToSeq(UNION {{[op |-> "ecs.Mul", in |-> [p |-> p, x |-> a[1], y |-> a[2], k |-> k]] : a \in Pts(p), k \in {<<>>, <<0>>, <<1>>, <<2>>, <<ToyCurve(p).n - 1>>, <<ToyCurve(p).n>>, <<ToyCurve(p).n + 1>>, <<0, 3>>, <<255>>}} : p \in Primes})
   \o SetToSeq(UNION {{[op |-> "ecs.OnCurve", in |-> [p |-> p, x |-> a, y |-> b]] : a \in 0..(p - 1), b \in 0..(p - 1)} : p \in Primes})
-  \o SetToSeq(UNION {{[op |-> "shift.s", in |-> [p |-> p, k |-> k, d |-> d]] : k \in 1..(ToyCurve(p).n - 1), d \in UNION {{<<v>>, <<0, v>>} : v \in 0..(ToyCurve(p).n + 2)} \cup {<<1, 0>>, <<255>>}} : p \in Primes})
+  \o SetToSeq(UNION {{[op |-> "shift.s", in |-> [p |-> p, k |-> k, d |-> d]] : k \in 1..(ToyCurve(p).n - 1), d \in UNION {{<<v>>, <<0, v>>} : v \in 0..VMin(255, ToyCurve(p).n + 2)} \cup {<<1, 0>>, <<255>>}} : p \in Primes})
 ASSUME ndJsonSerialize("gen.ndjson", Vectors)
 ASSUME PrintT(<<"VERIF-GEN", Len(Vectors)>>)
 Init == x = 0
